@@ -119,8 +119,14 @@ class ArrayConstraintBuilder(ConstraintOverrideVisitor):
             super().visit_constraint_if_else(c)
 
     def visit_expr_array_sum(self, s):
-        # Don't recurse into this
-        pass
+        # Don't recurse into this. When a constraint is being 
+        # copied, the reduction is used as-is
+        if self.do_copy_level > 0:
+            self._expr = s
+            
+    def visit_expr_array_product(self, s):
+        if self.do_copy_level > 0:
+            self._expr = s
 
     def visit_expr_array_subscript(self, s : ExprArraySubscriptModel):
         if self.phase != 1:
